@@ -133,6 +133,30 @@ fn run(rng: &mut Rng, _idx: u64, tier: Tier) -> CaseOut {
         let outer_b = if rng.coin() { None } else { Some(other.to_string()) };
         let b = mk(rng, outer_b);
         bin(*rng.pick(&[Bin::And, Bin::Or, Bin::Xor]), a, b)
+    } else if fopts.max_quant_depth >= 2 && rng.chance(1, 6) {
+        // a one-variable sub-formula first OUTSIDE any restricted scope (at nesting depth 1), then one level deeper
+        // inside a restricted scope whose variable it does not mention
+        let lab = rng.pick(&["p", "d", "e"]).to_string();
+        let lit = F::Prop(rng.pick(&net.names).clone());
+        let g = |v: &str, pick: usize| -> F {
+            match pick {
+                0 => F::Hyb(Hyb::Jump, v.to_string(), None, Box::new(un(Un::AX, var(v)))),
+                1 => un(Un::EF, var(v)),
+                2 => un(Un::AX, var(v)),
+                _ => bin(Bin::And, un(Un::Not, var(v)), un(Un::EF, var(v))),
+            }
+        };
+        let pick = rng.below(4);
+        let q = |rng: &mut Rng| *rng.pick(&[Hyb::Exists, Hyb::Bind, Hyb::Forall]);
+        let a = F::Hyb(q(rng), "x".to_string(), None, Box::new(g("x", pick)));
+        let link = match rng.below(3) {
+            0 => F::Hyb(Hyb::Jump, "x".to_string(), None, Box::new(un(Un::EF, var("y")))),
+            1 => bin(Bin::Or, var("x"), lit),
+            _ => F::Hyb(Hyb::Jump, "x".to_string(), None, Box::new(lit)),
+        };
+        let inner = F::Hyb(q(rng), "y".to_string(), None, Box::new(bin(Bin::And, g("y", pick), link)));
+        let b = F::Hyb(q(rng), "x".to_string(), Some(lab), Box::new(inner));
+        bin(*rng.pick(&[Bin::And, Bin::Or, Bin::Xor]), a, b)
     } else {
         gen_formula(rng, &fopts, &net.names)
     };
